@@ -508,19 +508,20 @@ def run_check(pid, tier, seed):
     # obligation of the property.  When nothing but hints fails, the property's clauses were verified only under those hints: undecided,
     # unless a concrete failing input exists (witness search / bounded stand-in).
     hint_only = bool(mine) and all(n.endswith('/HINT') for n in mine) and not kani_fail and standin_hit is None
+    weak = None
     if hint_only:
-        rp = concretise.bounded_standin(pid, 'only proof hints fail: %s' % sorted(mine), list(mine.values()), REPO, scratch, say)
-        if rp:
-            print('VIOLATION property=%s replay=%s' % (pid, rp), flush=True)
+        weak = ('only proof hints fail (%s)' % sorted(mine)[:4], mine)
+    elif demoted and not violation:
+        weak = ('the changed tree has functions without contract; obligations of their callers fail (%s)' % sorted(demoted)[:4], demoted)
+    if weak:
+        # weak evidence: a violation needs a concrete failing input, or at least a behaviour that differs from the pinned tree
+        rp = concretise.make_replay(pid, weak[1], [], meta, REPO, scratch, say, tier)
+        if rp['found_input'] or rp.get('different'):
+            for n in sorted(weak[1]):
+                say(pid, 'failed obligation: %s  (%s)' % (n, weak[1][n]['message']))
+            print('VIOLATION property=%s replay=%s%s' % (pid, rp['path'], '' if rp['found_input'] else ' no-failing-input-found'), flush=True)
             return 1
-        say(pid, 'UNDECIDED (exit 2): only proof hints fail (%s) and no failing input was found; the clauses of the property are not decided' % sorted(mine)[:4])
-        return 2
-    if demoted and not violation:
-        rp = concretise.bounded_standin(pid, 'obligations of functions that call functions without contract: %s' % sorted(demoted)[:8], list(demoted.values()), REPO, scratch, say)
-        if rp:
-            print('VIOLATION property=%s replay=%s' % (pid, rp), flush=True)
-            return 1
-        say(pid, 'UNDECIDED (exit 2): the changed tree has functions without contract; the obligations of their callers are not decided')
+        say(pid, 'UNDECIDED (exit 2): %s; no failing input was found and the behaviour does not differ from the pinned tree' % weak[0])
         return 2
     if und and not violation:
         say(pid, 'resource limit reached in %s' % sorted({str(u.get('fn')) for u in und}))
@@ -542,6 +543,13 @@ def run_check(pid, tier, seed):
             except Exception as e:  # noqa -- decoration only
                 say(pid, 'kani playback did not run: %s' % e)
         rp = concretise.make_replay(pid, mine, kani_fail, meta, REPO, scratch, say, tier, standin_hit, kani_cex)
+        if rp.get('same_behaviour'):
+            # obligations fail, no failing input exists among the oracle searches, and the tree behaves exactly like the pinned tree on
+            # every differential scenario: a failed proof (solver incompleteness on rewritten code), not a demonstrated violation
+            for n in sorted(mine):
+                say(pid, 'undischarged obligation: %s  (%s)' % (n, mine[n]['message']))
+            say(pid, 'UNDECIDED (exit 2): obligations are no longer discharged, but no failing input was found and the behaviour is unchanged')
+            return 2
         evidence['coverage']['replay'] = rp['path']
         suffix = '' if rp['found_input'] else ' no-failing-input-found'
         for n in sorted(mine):
